@@ -2,6 +2,7 @@
 from __future__ import annotations
 
 import math
+import random
 from fractions import Fraction
 
 from ..core import frac
@@ -12,7 +13,9 @@ RULE = ("center_all on tables of 1..24 chromosomes (chr / plain names, or none n
         "by_chrom x skip_low x PAR genome, with null-coverage bins; expect_flat_log2 and shift_xx on tables with X/Y/PAR "
         "rows; the decision logic of compare_sex_chromosomes with scipy's Mood statistics as parameters; plus an oracle "
         "run of guess_xx on seeded noisy samples (sd 0.01..0.3, 40..400 X bins, both sexes x reference sexes x +-Y x "
-        "+-weights) -- search on the real code, not proof. non-trivial = table has >= 2 chromosomes and a sex "
+        "+-weights) -- search on the real code, not proof -- each also through shift_xx with the sex left to be inferred "
+        "and through the `sex` report (do_sex; one in three via `cnvkit.py sex FILE [-y] -o OUT`); a share of the centring "
+        "cases through `cnvkit.py call -m none --center [EST] [--drop-low-coverage] [--diploid-parx-genome G]`. non-trivial = table has >= 2 chromosomes and a sex "
         "chromosome or a null-coverage bin; distinct by hash")
 EXHAUSTIVE = {"quick": False, "thorough": False}
 ASSUMPTIONS = ["mode/biweight estimators: only the clauses 'uniform shift' and 're-centering changes nothing' are checked "
@@ -96,6 +99,27 @@ def gen_cases(rng, tier):
     for k in range(n):
         for est in ESTS:
             cases.append(_center_case(rng, est))
+    # the same centring through the command line: `cnvkit.py call FILE -m none --center EST [--drop-low-coverage]
+    # [--diploid-parx-genome G]` (per-chromosome first: the command has no other mode); rows in file order, values
+    # with 6 significant digits so that the written .cnr is exact
+    crng = random.Random(rng.random())
+    for k in range(max(8, n // 3)):
+        c = _center_case(crng, ESTS[k % 4])
+        i = c["in"]
+        r6 = lambda v: v if v is None else float("%.6g" % v)
+        rows = [[r[0], r[1], r[2], r6(r[3]), r6(r[4])] for r in i["rows_f"]]
+        order = {}
+        for r in rows:
+            order.setdefault(r[0], len(order))
+        rows.sort(key=lambda r: (order[r[0]], r[1], r[2]))
+        if len({(r[0], r[1], r[2]) for r in rows}) != len(rows) or any(m in order for m in ("chrM", "MT")) or             any(not c0.replace("chr", "").isdigit() and c0.replace("chr", "") not in ("X", "Y") for c0 in order):
+            continue  # duplicated coordinates / names the reader would re-order: keep the file order = table order
+        i.update(rows_f=rows, rows=[[r[0], r[1], r[2], frac(r[3]), None if r[4] is None else frac(r[4])] for r in rows],
+                 by_chrom=True, cli=True, explicit_est=crng.random() < 0.7)
+        if not i["explicit_est"]:
+            i["est"] = "median"  # `--center` without a value: the parser's const
+        c["tag"] = "cli-" + i["est"]
+        cases.append(c)
     for k in range(n):
         c = _center_case(rng, "median")
         rows = c["in"]["rows"]
@@ -109,8 +133,10 @@ def gen_cases(rng, tier):
         sd = rng.uniform(0.01, 0.3)
         nx = rng.randint(40, 400)
         rows = _sex_table(rng, female, hapx, with_y, with_w, sd, nx)
-        cases.append({"op": "sex_oracle", "tag": "sex-noise",
-                      "in": {"rows_f": rows, "female": female, "hapX": hapx, "with_w": with_w, "sd": sd, "nx": nx, "with_y": with_y}})
+        cli = (k % 3 == 0)
+        cases.append({"op": "sex_oracle", "tag": "sex-noise" + ("-cli" if cli else ""),
+                      "in": {"rows_f": rows, "female": female, "hapX": hapx, "with_w": with_w, "sd": sd, "nx": nx, "with_y": with_y,
+                             "cli": cli}})
     for k in range(m):
         # decision logic: small tables, also flat / degenerate ones where Mood's test fails
         female, hapx, with_y = (rng.random() < .5, rng.random() < .5, rng.random() < .6)
@@ -132,7 +158,61 @@ def gen_cases(rng, tier):
 
 def _cna(rows_f, cols):
     from cnvlib.cnary import CopyNumArray as CNA
-    return CNA.from_rows([tuple(r) for r in rows_f], columns=cols, meta_dict={"sample_id": "S"})
+    # (`filename` as read_cna sets it: do_sex labels its rows with it)
+    return CNA.from_rows([tuple(r) for r in rows_f], columns=cols, meta_dict={"sample_id": "S", "filename": "S.cnr"})
+
+
+def _center_cli(i, cna):
+    """`cnvkit.py call -m none --center` on the written table; returns the table handed to the writer (and checks
+    that the written file reads back equal to it to 6 digits)"""
+    import os
+    import shutil
+    import tempfile
+    import logging
+    from cnvlib import commands
+    from cnvlib.cmdutil import read_cna
+    from skgenome import tabio
+    d = tempfile.mkdtemp(prefix="c15cli", dir="/var/tmp")
+    try:
+        fin, fout = os.path.join(d, "S.cnr"), os.path.join(d, "S.call.cns")
+        tabio.write(cna, fin)
+        back = read_cna(fin)
+        if list(back["log2"]) != list(cna["log2"]) or list(back.chromosome) != list(cna.chromosome) or             list(back.start) != list(cna.start):
+            raise AssertionError("the written .cnr does not read back as the table of the case")
+        opts = ["-m", "none", "-o", fout] + (["--drop-low-coverage"] if i["skip_low"] else []) + (
+            ["--diploid-parx-genome", i["par"]] if i["par"] else [])
+        if i["explicit_est"]:
+            argv = ["call", fin, "--center", i["est"]] + opts
+        else:
+            argv = ["call"] + opts + ["--center", "--", fin]  # a bare `--center` (parser const) must not swallow the file name
+        captured = []
+
+        class _Tab:
+            def __getattr__(self, name):
+                return getattr(tabio, name)
+
+            def write(self, garr, outfname=None, *a, **k):
+                captured.append(garr)
+                return tabio.write(garr, outfname, *a, **k)
+        saved = commands.tabio
+        commands.tabio = _Tab()
+        prev = logging.root.manager.disable
+        logging.disable(logging.CRITICAL)
+        try:
+            args = commands.parse_args(argv)
+            args.func(args)
+        finally:
+            logging.disable(prev)
+            commands.tabio = saved
+        if len(captured) != 1 or not os.path.exists(fout):
+            raise AssertionError("cnvkit.py call did not write exactly one table to the requested output")
+        out = captured[0]
+        rb = read_cna(fout)
+        if len(rb) != len(out) or any(abs(a - b) > 1e-5 * max(1, abs(b)) for a, b in zip(rb["log2"], out["log2"])):
+            raise AssertionError("the written .cns does not read back as the table call computed")
+        return out
+    finally:
+        shutil.rmtree(d, ignore_errors=True)
 
 
 def run_impl(case):
@@ -150,7 +230,10 @@ def run_impl(case):
             orig = cna.copy()
             sel = (orig.drop_low_coverage(verbose=False) if i["skip_low"] else orig).autosomes(diploid_parx_genome=i["par"])
             labels = list(sel.data.index)
-            cna.center_all(i["est"], by_chrom=i["by_chrom"], skip_low=i["skip_low"], diploid_parx_genome=i["par"])
+            if i.get("cli"):
+                cna = _center_cli(i, cna)
+            else:
+                cna.center_all(i["est"], by_chrom=i["by_chrom"], skip_low=i["skip_low"], diploid_parx_genome=i["par"])
             new = [frac(float(v)) for v in cna["log2"]]
             # the chosen estimator of the bins selected on the original values, re-applied to the output
             # (biweight / mode are not modelled: the real estimator functions are used here)
@@ -184,7 +267,32 @@ def run_impl(case):
         isx = (inferred.chromosome == inferred.chr_x_label).values
         auto = inferred.autosomes()["log2"].values
         dx = float(np.median(inferred["log2"].values[isx]) - np.median(auto)) if isx.any() and len(auto) else 0.0
-        return {"xx": xx, "shift_same": same, "x_minus_auto": dx}
+        # the `sex` report: do_sex, and for one case in three `cnvkit.py sex FILE [-y] -o OUT` on the written table
+        from cnvlib import commands
+        rep = commands.do_sex([cna], i["hapX"], None)
+        report = str(rep["sex"].iat[0])
+        if i.get("cli"):
+            import os, shutil, tempfile, logging
+            from skgenome import tabio
+            d = tempfile.mkdtemp(prefix="c15sex", dir="/var/tmp")
+            try:
+                fin, fout = os.path.join(d, "S.cnr"), os.path.join(d, "sex.tsv")
+                tabio.write(cna, fin)
+                argv = ["sex", fin, "-o", fout] + (["-y"] if i["hapX"] else [])
+                prev = logging.root.manager.disable
+                logging.disable(logging.CRITICAL)
+                try:
+                    a = commands.parse_args(argv)
+                    a.func(a)
+                finally:
+                    logging.disable(prev)
+                lines = [ln.rstrip("\n").split("\t") for ln in open(fout)]
+                if len(lines) != 2 or lines[0][:2] != ["sample", "sex"]:
+                    raise AssertionError("cnvkit.py sex did not write one row per file: %r" % (lines[:3],))
+                report = lines[1][1]
+            finally:
+                shutil.rmtree(d, ignore_errors=True)
+        return {"xx": xx, "shift_same": same, "x_minus_auto": dx, "report": report}
     if op == "sex":
         from scipy.stats import median_test
         cols = ["chromosome", "start", "end", "gene", "log2"]
@@ -244,6 +352,8 @@ def judge(case, impl, resp):
         return [], ["model error: " + resp["error"]], None
     if op == "sex_oracle":
         spec = [] if impl["xx"] == case["in"]["female"] else ["sex_inferred_under_noise"]
+        if impl["report"] != ("Female" if case["in"]["female"] else "Male"):
+            spec.append("sex_report_returns_that_sex")
         if not impl["shift_same"]:
             spec.append("shift_xx_uses_inferred_sex")
         # medians of >= 40 bins with sd <= 0.3: the two medians are each within ~0.15 of their levels
